@@ -67,9 +67,9 @@ def _impl(tier, seed, search):
     def canon(r):
         if r is None: return None
         if isinstance(r, (tuple, list)): return tuple(canon(x) for x in r)
-        if isinstance(r, np.ndarray): return ('arr', r.shape, r.astype(float).tobytes())
+        if isinstance(r, np.ndarray): return ('arr', r.shape, (r.astype(float) + 0.0).tobytes())      # + 0.0: -0.0 and 0.0 are the same value
         if isinstance(r, (bool, np.bool_)): return bool(r)
-        if isinstance(r, (int, float, np.floating, np.integer)): return float(r)
+        if isinstance(r, (int, float, np.floating, np.integer)): return float(r) + 0.0
         if hasattr(r, 'data') and hasattr(r, 'shape') and not isinstance(r, np.ndarray):
             return ('obj', type(r).__name__, tuple(canon(np.asarray(x)) for x in r.data))
         return repr(r)
